@@ -52,7 +52,17 @@ pub(crate) fn get_border_xml(border: &Border) -> String {
     let top = get_border_xml_inner(&border.top, "top");
     let bottom = get_border_xml_inner(&border.bottom, "bottom");
     let diagonal = get_border_xml_inner(&border.diagonal, "diagonal");
-    format!("<border>{left}{right}{top}{bottom}{diagonal}</border>")
+    let diagonal_up = if border.diagonal_up {
+        " diagonalUp=\"1\""
+    } else {
+        ""
+    };
+    let diagonal_down = if border.diagonal_down {
+        " diagonalDown=\"1\""
+    } else {
+        ""
+    };
+    format!("<border{diagonal_up}{diagonal_down}>{left}{right}{top}{bottom}{diagonal}</border>")
 }
 
 pub(crate) fn get_fill_xml(fill: &Fill) -> String {
